@@ -122,6 +122,10 @@ func newWorld(t *testing.T) *world {
 	}
 	// authorization credentials
 	w.authCred["ok"] = w.issueAuth("A", "R", service)
+	// (the acceptable credential of a request is ABOUT its requester, whoever that is)
+	w.authCred["ok:R"] = w.authCred["ok"]
+	w.authCred["ok:U"] = w.issueAuth("A", "U", service)
+	w.authCred["ok:W"] = w.issueAuth("A", "W", service)
 	w.authCred["wrongissuer"] = w.issueAuth("X", "R", service)
 	w.authCred["wrongsubject"] = w.issueAuth("A", "X", service)
 	return w
